@@ -81,6 +81,11 @@ def source(c):
         "const_expr": "#[typeshare]\npub const HOST: u32 = 1 + 2;\n",
         "const_bool": "#[typeshare]\npub const HOST: bool = true;\n",
         "const_path": "#[typeshare]\npub const HOST: u32 = OTHER;\n",
+        "const_cast": "#[typeshare]\npub const HOST: u32 = -1i32 as u32;\n",
+        "const_not": "#[typeshare]\npub const HOST: u32 = !0;\n",
+        "const_method": "#[typeshare]\npub const HOST: u32 = 5u32.pow(2);\n",
+        "const_block": "#[typeshare]\npub const HOST: u32 = { 5 };\n",
+        "const_if": "#[typeshare]\npub const HOST: u32 = if cfg!(test) { 1 } else { 2 };\n",
     }[k]
     return SUPPORT + item
 
